@@ -120,6 +120,7 @@ type env struct {
 	errs     map[string]int
 	att, ok  int64
 	rwShared map[[2]int]*client.RWLock
+	admin    *client.Client // handover scenarios: direct connection to the leader for LIST_WAIT / LIST_LOCKED / STATE
 }
 
 func (e *env) done() bool { return atomic.LoadInt32(&e.stop) != 0 }
@@ -146,7 +147,7 @@ func (e *env) sharedRW(conn, k int, c *client.Client, key [16]byte, to, ex uint3
 	return rw
 }
 
-func runScenario(sc Scenario, target string, px *proxy) (ScenResult, []Violation) {
+func runScenario(sc Scenario, target string, px *proxy, adminAddr string) (ScenResult, []Violation) {
 	t0 := time.Now()
 	res := ScenResult{ID: sc.ID, Prim: sc.Prim, Via: sc.Via, Proxy: sc.Proxy, Goroutines: sc.Goroutines, Conns: sc.Conns, N: sc.N,
 		Keys: sc.Keys, Errors: map[string]int{}, Extra: map[string]interface{}{}}
@@ -206,6 +207,22 @@ func runScenario(sc Scenario, target string, px *proxy) (ScenResult, []Violation
 	}
 
 	var viols []Violation
+	if sc.Kind == "handover" {
+		ah, ap := splitHost(adminAddr)
+		e.admin = client.NewClient(ah, ap)
+		if err := e.admin.Open(); err != nil {
+			res.Skipped = "admin client open failed: " + err.Error()
+			return res, []Violation{{Scenario: sc.ID, Sig: "harness:client-open", What: "client.Open failed against a running server: " + err.Error(), Params: sc}}
+		}
+		e.clients = append(e.clients, e.admin) // closed with the others (never used by workers: cl(g) is overridden below)
+		viols = runHandover(e, &res)
+		atomic.StoreInt32(&e.stop, 1)
+		cutWg.Wait()
+		res.Attempts, res.Acquisitions = int(e.att), int(e.ok)
+		res.Violations = len(viols)
+		res.WallMs = time.Since(t0).Milliseconds()
+		return res, viols
+	}
 	switch sc.Prim {
 	case "lock", "semaphore", "flow", "rwlock", "rlock":
 		var wg sync.WaitGroup
